@@ -7,6 +7,9 @@ declare -A PROPS=(
  [B01]="C04 C03 C16" [B02]="C04 C08 C16" [B03]="C01 C07 C16" [B04]="C05 C06 C11 C16"
  [B05]="C06 C07 C11 C16" [B06]="C08 C16" [B07]="C15 C11 C16" [B08]="C02 C03 C14 C16"
  [B09]="C05 C16" [B10]="C09 C16" [B11]="C10 C16" [B12]="C20 C12 C16" [B13]="C02 C11 C16" [B14]="C01 C05 C13 C15 C16 C19"
+ [B15]="C04 C19 C16" [B16]="C13 C16" [B17]="C06 C16" [B18]="C03 C14 C16" [B19]="C15 C19 C16" [B20]="C01 C07 C16"
+ [B21]="C01 C16" [B22]="C08 C07 C16" [B23]="C10 C16" [B24]="C15 C11 C07 C16" [B25]="C11 C18 C05 C16" [B26]="C09 C16"
+ [B27]="C05 C16" [B28]="C04 C06 C16" [B29]="C20 C15 C16" [B30]="C05 C09 C12 C16"
 )
 names="$@"; [ -z "$names" ] && names=$(ls seeded/benign/*.diff | xargs -n1 basename | sed 's/.diff//')
 mkdir -p _build/evidence_keep
